@@ -121,6 +121,10 @@ func cfgS4(prop string, seed uint64, tier string) *RunCfg {
 		if c.Knobs["leader_only"] == 1 {
 			kinds = []string{"flip", "flip", "cut", "eof", "torn"}
 		}
+		if cs.Inactivity > 0 {
+			// only a client that probes can notice a peer that went silent
+			kinds = append(kinds, "mute")
+		}
 		f := FaultSpec{Kind: kinds[r.Intn(len(kinds))], AfterTxn: r.Intn(n), Frame: r.Intn(14), Bytes: r.Intn(40), N: 1 + r.Intn(2), Ms: []int{100, 700, 3000}[r.Intn(3)], Dir: r.Intn(2)}
 		if k == 0 && r.Intn(3) == 0 {
 			f.AfterTxn = -1 // during the initial handshake / monitor set-up
@@ -174,6 +178,17 @@ func (s *s4) beforeDeliver(l *simrt.Link, dir int, idx int, frame []byte) int {
 				l.Cut()
 			}
 			return -1
+		case "mute":
+			// the server goes silent exactly at this request: nothing it sends from now
+			// on arrives (the request itself is delivered)
+			f.N = 0
+			if dir != 0 {
+				f.N, f.Frame = 1, 0 // wait for a frame from the client
+				continue
+			}
+			s.fault("mute", fmt.Sprintf("link %s: the server goes silent at frame %d/%d (%s)", l.Name, dir, idx, frameKind(frame)))
+			l.Blackhole(1)
+			return -1
 		case "torn":
 			f.N = 0
 			n := f.Bytes
@@ -215,7 +230,7 @@ func (s *s4) arm(i int) {
 			continue
 		}
 		switch f.Kind {
-		case "cut", "torn", "eof":
+		case "cut", "torn", "eof", "mute":
 			ff := f
 			s.armed = append(s.armed, &ff)
 		case "restart":
@@ -365,7 +380,13 @@ func runS4(e *Env, cfg *RunCfg) {
 				}
 				return
 			}
-			if !e.RunUntil(func() bool { return e.Now() > s.lastFault+s.backoff }) && e.Stopped() {
+			next := e.Now() + s.backoff
+			if !e.RunUntil(func() bool { return e.Now() > next && e.Now() > s.lastFault+s.backoff }) && e.Stopped() {
+				return
+			}
+			// Close returns before the client has finished tearing the connection
+			// down; like a user who retries a little later, let it finish
+			if !e.Settle() && e.Stopped() {
 				return
 			}
 		}
@@ -399,7 +420,10 @@ func runS4(e *Env, cfg *RunCfg) {
 				s.mc.mons = s.mc.mons[:len(s.mc.mons)-1]
 				e.Logf("monitor attempt %d failed: %v", try, cm.err)
 				e.Probes["monitor_failed_under_fault"]++
-				e.RunUntil(func() bool { return e.Now() > s.lastFault+2*s.backoff+50*time.Millisecond })
+				// retry a little later, like a user would: the client may be in the
+				// middle of dropping and re-establishing the connection
+				next := e.Now() + 2*s.backoff + 50*time.Millisecond
+				e.RunUntil(func() bool { return e.Now() > next && e.Now() > s.lastFault+2*s.backoff+50*time.Millisecond })
 				if e.Stopped() {
 					return
 				}
